@@ -6,6 +6,7 @@ import MidnightZK.Model.C12.Curve
 import MidnightZK.Model.C12.Zn
 import MidnightZK.Model.C12.Fft
 import MidnightZK.Model.C12.Poly
+import MidnightZK.Model.C12.BatchAdd
 import MidnightZK.Gen.C12Consts
 /-! Line-protocol handler of property C12. -/
 namespace MidnightZK.C12.Driver
@@ -42,6 +43,43 @@ def runMsm (cp : CurveP) (entry : String) (t acc0 nbytes : Nat) (pairs : List (N
   | "specific-blst" => some (msmSpecific naive coeffs bases)
   | "specific-best" => if t = 0 then none else some (msmSpecific (msmBest t numBits) coeffs bases)
   | _ => none
+
+/-- `x:y` (hex, no prefix) or `-` for an empty bucket. -/
+def parseAffOpt (p : Nat) (t : String) : Option (Option (Aff (Zn p))) :=
+  if t = "-" then some none else
+  match t.splitOn ":" with
+  | [x, y] => do let x ← parseHex? x; let y ← parseHex? y; pure (some ⟨Zn.ofNat p x, Zn.ofNat p y⟩)
+  | _ => none
+
+def parseList {α : Type} (f : String → Option α) (s : String) : Option (List α) :=
+  if s = "." then some [] else (s.splitOn ",").mapM f
+
+/-- `base:bucket:sign` -/
+def parseSchedPt (t : String) : Option SchedPt :=
+  match t.splitOn ":" with
+  | [b, k, s] => do
+    let b ← b.toNat?; let k ← k.toNat?
+    if s = "1" then pure ⟨b, k, true⟩ else if s = "0" then pure ⟨b, k, false⟩ else none
+  | _ => none
+
+def fmtAffOpt {p : Nat} (a : Option (Aff (Zn p))) : String :=
+  match a with
+  | none => "-"
+  | some a => s!"{(toHex a.x.val).drop 2}:{(toHex a.y.val).drop 2}"
+
+def znInv (p : Nat) (a : Zn p) : Option (Zn p) :=
+  if a.val % p = 0 then none else some ⟨invEuclid a.val p⟩
+
+def runBatchAdd (p : Nat) (bks pts bases : String) : String :=
+  match parseList (parseAffOpt p) bks, parseList parseSchedPt pts, parseList (parseAffOpt p) bases with
+  | some bks, some pts, some bases =>
+    match bases.mapM id with
+    | none => "bad-op"
+    | some bases =>
+      match batchAdd (znInv p) bases bks pts with
+      | none => "panic"
+      | some out => ",".intercalate (out.map fmtAffOpt)
+  | _, _, _ => "bad-op"
 
 /-- The BLS12-381 scalar field, constants from the generated file. -/
 abbrev Fr := Zn Gen.frModulus
@@ -149,6 +187,30 @@ def answer (line : String) : String :=
         | none => "panic"
       | none => "panic"
     | _, _, _, _ => "bad-op"
+  | ["inner", a, b] =>
+    match parseNatList? a, parseNatList? b with
+    | some a, some b =>
+      match computeInnerProduct (frList a) (frList b) with
+      | some v => toHex v.val
+      | none => "panic"
+    | _, _ => "bad-op"
+  | ["domconst", which, j, k, value] =>
+    match j.toNat?, k.toNat?, parseNat? value with
+    | some j, some k, some value =>
+      match frDomain j k with
+      | some d =>
+        if which = "lagrange" then fmtFr (d.constantLagrange (fr value))
+        else if which = "extended" then fmtFr (d.constantExtended (fr value))
+        else "bad-op"
+      | none => "panic"
+    | _, _, _ => "bad-op"
+  | ["domfromvec", j, k, vals] =>
+    match j.toNat?, k.toNat?, parseNatList? vals with
+    | some j, some k, some vals =>
+      match frDomain j k with
+      | some d => fmtFrOpt (d.fromVec (frList vals))
+      | none => "panic"
+    | _, _, _ => "bad-op"
   | ["chunks", len, t] =>
     match len.toNat?, t.toNat? with
     | some len, some t =>
@@ -165,6 +227,21 @@ def answer (line : String) : String :=
     match len.toNat? with
     | some len => toString (chooseWindow len)
     | none => "bad-op"
+  | ["batchadd", c, bks, pts, bases] =>
+    match curveOf c with
+    | some (cp, _) => runBatchAdd cp.p bks pts bases
+    | none => "bad-op"
+  | ["sched", c, w, logs, reqs] =>
+    match curveOf c, w.toNat?, parseList parseHex? logs, parseList parseSchedPt reqs with
+    | some (cp, table), some w, some logs, some reqs =>
+      if w = 0 then "bad-op" else
+      let bases : List (Zn cp.r) := logs.map (Zn.ofNat cp.r)
+      let (tr, bk) := schedRun w bases (reqs.map (fun r => (r.baseIdx, r.buckIdx, r.sign)))
+      fmtNatList tr ++ " | " ++ " ".intercalate (bk.map (fun b =>
+        match b with
+        | none => "inf"
+        | some k => fmtAffine (toAffine cp.p (cp.mulGenTable table k.val))))
+    | _, _, _, _ => "bad-op"
   | ["gen", c] =>
     match curveOf c with
     | some (cp, _) => fmtAffine (toAffine cp.p cp.gen) ++ (if onCurve cp cp.gx cp.gy then " on" else " off")
